@@ -25,11 +25,11 @@ CHECKS = {
         "that every concrete semilegal move falls into its case's pre-state (that is C06/C02's semilegality invariant).",
    note=TB + "Assumes the pre-state of each abstract case (source holds mv.src_cell, castling squares hold king/rook/empty, en-passant victim behind dst)."),
  "C04": dict(cat="other", ref="DESIGN.md §3 C04",
-   technique="abstract interpretation of do_unmake_move on the abstract post-state; memory-version check of the undo record; path rules on Make impls",
+   technique="abstract interpretation of do_unmake_move on the abstract post-state; memory-version check of the undo record; path rules on Make impls; null-move corner cases",
    text="Static: the RawUndo aggregate is built only from memory-version-0 reads (before any store) for every kind; do_unmake_move "
         "interpreted on the abstract post-state of each kind/case restores every touched square, every set membership, `all` and all "
         "scalar fields from the undo record; dispatch colour mapping; every error path of every Make::make_raw leaves the board untouched "
-        "or rolls back with the same move and undo. Per-step exactness for all inputs of each abstract case; nesting follows by induction.",
+        "or rolls back with the same move and undo. Per-step exactness for all inputs of each abstract case; nesting follows by induction. ADDED: the null move is run with a8 empty / own / enemy, since Move::NULL names a8 as both squares.",
    note=TB + "Same abstract-case assumptions as C03."),
  "C05": dict(cat="other", ref="DESIGN.md §3 C05",
    technique="symbolic XOR-multiset comparison of hash updates with zobrist(post)^zobrist(pre); occupancy membership simulation; exhaustive key-table algebra",
@@ -48,20 +48,20 @@ CHECKS = {
         "replay' then follows from C03/C04 and is not established separately.",
    note=TB + "Make::make_raw implementations are treated as opaque here (their own discipline is C02/C04)."),
  "C14": dict(cat="other", ref="DESIGN.md §3 C14",
-   technique="exhaustive tabulation of Outcome::passes/is_force by constant folding; abstract-input path classification of calc_outcome",
+   technique="exhaustive tabulation of Outcome::passes/is_force by constant folding; abstract-input path classification of calc_outcome; key-table distinctness",
    text="Static: passes/is_force are tabulated over all 22 outcomes x 3 filters by constant folding of their MIR and compared with the "
         "statement's table (exhaustive); chain calc_outcome is classified on every abstract input (board outcome none/strict/non-strict x "
         "0..7 occurrences): exactly one path applies and returns what the precedence prescribes; set_auto_outcome stores iff "
         "passes(filter); repetition table keyed by the Zobrist hash only with +1/-1 discipline. Occurrence counting over histories is not "
-        "decided (depends on C05 and inherent hash collisions).",
+        "decided (depends on C05 and inherent hash collisions). ADDED: the key the repetition table counts by distinguishes single-feature differences (the build's key tables are non-zero and distinct, incl. the 16 en-passant squares).",
    note=TB + "Board::calc_outcome is opaque here (C07)."),
  "C01": dict(cat="other", ref="DESIGN.md §3 C01",
-   technique="path rules and term-set normal forms over the legality filter (pre-filter, Checker::is_legal, attack test, wrappers)",
+   technique="path rules and term-set normal forms over the legality filter (pre-filter, Checker::is_legal, attack test, wrappers); per-site set-algebra evaluation of the generator against a reference predicate",
    text="Static, necessary conditions only: the legal generators are the semilegal ones retained by the un-negated legality checker; the "
         "pin pre-filter may answer Some(true) only when not in check, mover unpinned/non-king and not en passant, and never decides on "
         "another path; Checker::is_legal evaluates the five-term reference attack test on the post-move occupancy with every captured man "
         "masked out, for the king-move, en-passant and general paths; Move::validate is semi_validate plus the same checker. This decides "
-        "the structure of the legality filter and the agreement of the three legality routes, not the exactness of the semilegal move set.",
+        "the structure of the legality filter and the agreement of the three legality routes, not the exactness of the semilegal move set. ADDED: the semilegal generator is read as set algebra over the bitboards it iterates (rules/emitrules.py) and must emit S->D of each (kind, piece) exactly when the reference rules allow it, for all 64x64 pairs on abstract boards, both colours (sliding lookups as proved in C15; castling by the condition-set rule) - with the filter rules this ties legal generation to the rules; the legality checker's set arguments are compared as boolean functions.",
    note=TB + "Tied to the single-blocker pin architecture of legal.rs: a different legality design needs new rules (stated in DESIGN.md)."),
  "C07": dict(cat="other", ref="DESIGN.md §3 C07",
    technique="decision-tree extraction and exhaustive evaluation on abstract inputs; emitter-set comparison over the resolved call graph",
@@ -71,19 +71,19 @@ CHECKS = {
         "minus castling and stop at the first legal move. Does not decide that the move set or occupancy sets are right (C01/C05/C06).",
    note=TB + "Assumes: if castling is legal the king's single step is legal too (chess argument)."),
  "C16": dict(cat="other", ref="DESIGN.md §3 C16",
-   technique="term-set normal form of the three sibling attack tests compared with the reference union of reverse lookups; table comparison",
+   technique="term-set normal form of the three sibling attack tests compared with the reference union of reverse lookups; table comparison; exhaustive magic-table comparison",
    text="Static: do_is_cell_attacked, do_cell_attackers (both colours) and Checker::is_attacked (both attacker colours) are reduced to "
         "sets of AND-ed factors and must equal the five reference terms (piece set x attack set, pawn table colour inverted, sliders with "
         "matching geometry), boolean forms true iff a term is non-empty; near-attack tables equal geometry; dispatch and check queries use "
-        "the right king and attacker colour. With C15 this is the whole structural content; the reverse-lookup lemma itself is assumed.",
+        "the right king and attacker colour. With C15 this is the whole structural content; the reverse-lookup lemma itself is assumed. ADDED: the magic lookups the queries use are exact on every subset of every mask (C15's T2/T3 re-run).",
    note=TB + "Reverse-lookup lemma of chess geometry assumed; occupancy sets assumed consistent (C05)."),
  "C06": dict(cat="other", ref="DESIGN.md §3 C06",
-   technique="exhaustive tabulation of is_well_formed by constant propagation over 10x13x64x64 tuples; emitter-set and condition-set comparison of generator vs validator",
+   technique="exhaustive tabulation of is_well_formed by constant propagation over 10x13x64x64 tuples; emitter-set and condition-set comparison of generator vs validator; abstract-board tabulation of the validator; per-site set-algebra evaluation of the generator",
    text="Static: Move::is_well_formed is folded per (kind, cell) and its residual tree evaluated on all 4096 (src,dst) pairs: it must equal "
         "the geometric-possibility predicate written from the rules (532,480 tuples, exhaustive); each generator family reaches exactly "
         "the emitters of its documented class and the classes partition; all add_move sites pass matches_piece-accepted constants; castling "
         "conditions of generator and validator are the same four; Move is constructible only through gated constructors. Does not decide "
-        "generator<=>validator equivalence for non-castling moves nor that the emitted bitboard arithmetic is the chess move set.",
+        "generator<=>validator equivalence for non-castling moves nor that the emitted bitboard arithmetic is the chess move set. ADDED: the semilegal generator is read as set algebra over the bitboards it iterates (rules/emitrules.py) and must emit S->D of each (kind, piece) exactly when the reference rules allow it, for all 64x64 pairs on abstract boards, both colours (sliding lookups as proved in C15; castling by the condition-set rule); the validator do_is_move_semilegal is evaluated on abstract boards for every well-formed tuple and must accept exactly under the chess conditions. Generator, validator and well-formedness are thereby each compared with one reference.",
    note=TB + "matches_piece/from_castling/allowed_mask are tabulated by constant folding."),
  "C11": dict(cat="other", ref="DESIGN.md §3 C11",
    technique="abstract-point evaluation of the validation decision tree (972 points); condition-set extraction for the normalising writes",
@@ -94,51 +94,51 @@ CHECKS = {
         "hash of the normalised board. The loop's arithmetic and idempotence are not evaluated separately.",
    note=TB + "count_ones(white/black/kings) are abstract inputs; their relation to the cells is the wiring rule V3."),
  "C02": dict(cat="other", ref="DESIGN.md §3 C02",
-   technique="path classification of every Make::make_raw (certification of the unchecked make, rollback), certified-producer rule, writer ownership, abstract-board make rules",
+   technique="path classification of every Make::make_raw (certification of the unchecked make, rollback), certified-producer rule, writer ownership, abstract-board make rules; abstract interpretation for panic freedom; validator tabulation; compile-fail witnesses",
    text="Static: on every path of every Make implementation an Ok result has exactly one unchecked make of a certified move (semilegal on "
         "that board + king test, or Ok payload of a legal producer, or unsafe constructor contract) and returns that move with its undo; "
         "every Err path left the board untouched or rolled back with the same pair; SAN conversion returns only validated or "
         "LegalFilter-searched moves; Board fields have two owning modules and unsafe API stays unsafe; the made position is per abstract "
         "case what the rules prescribe with rights re-examined (shared with C03). Validity of the result then rests on C01/C03; panic "
-        "freedom of the parsers is C12.",
+        "freedom of the parsers is C12. ADDED: the safe make API reaches no assertion, panic or unsafe precondition (abstract interpreter, 13 roots); the semilegality validator and the legality checker are exact on abstract boards / as boolean set functions; compile-fail witnesses for the unsafe constructors and the private raw board.",
    note=TB + "The validity of resulting positions is not proved independently of C01/C03/C05."),
  "C09": dict(cat="other", ref="DESIGN.md §3 C09",
-   technique="path rules on SAN conversion (validated or filter-searched results only); exhaustive tabulation of searcher/detector tables",
+   technique="path rules on SAN conversion (validated or filter-searched results only); exhaustive tabulation of searcher/detector tables; data-provenance rule on constructed moves",
    text="Static: parse soundness - san::Data::into_move returns Ok(mv) only after mv.validate(b) or from a searcher fed once by the "
         "legality-filtered candidate generators; hints honoured (mask for all 81 hint combinations, source filter, Empty/Found/Ambiguity); "
         "formatting tables - minimal disambiguation over the 8 flag combinations, flags only from other legal candidates of the same piece "
-        "and destination, '+'/'#' from the successor position, capture flag. Text-level round trip and 'standard notation' are not decided.",
+        "and destination, '+'/'#' from the successor position, capture flag. Text-level round trip and 'standard notation' are not decided. ADDED: a move that into_move constructs itself takes its squares from the text only, and Simple/PawnCaptureShort always go through the hint-honouring searcher.",
    note=TB + "Letter tables are checked under C12 (alphabets)."),
  "C10": dict(cat="other", ref="DESIGN.md §3 C10",
-   technique="exhaustive tabulation of UCI kind inference by constant propagation with a symbolic board-memory oracle; conversion tables; path rules on the readers",
+   technique="exhaustive tabulation of UCI kind inference by constant propagation with a symbolic board-memory oracle; conversion tables; path rules on the readers; well-formedness and validator tabulations shared with C06",
    text="Static: uci::Move::into_move is folded per promotion value and its residual tree evaluated over source cell x 64x64 squares x "
         "destination empty/occupied x en-passant mark, and must agree - modulo tuples no reader can accept - with the UCI semantics "
         "(double step, en passant, castling, promotion, simple); kind/promotion/piece conversions and the n/b/r/q letter tables are "
         "mutually inverse; the semilegal/legal readers return Ok only after semi_validate/validate of the converted text on that board; "
-        "Null is never semilegal. 'Succeeds exactly when such a move exists' additionally needs C06/C01 and is not decided here.",
+        "Null is never semilegal. 'Succeeds exactly when such a move exists' additionally needs C06/C01 and is not decided here. ADDED: the two gates every reader relies on are re-checked here: Move::is_well_formed on all 532,480 tuples and the semilegality validator on abstract boards.",
    note=TB + "quick tier tabulates 6 representative source cells and 3 promotion values per colour, thorough all 13 x 5."),
  "C17": dict(cat="other", ref="DESIGN.md §3 C17",
-   technique="loop-structure and index-discipline rules on the walker's effect trees; exhaustive GameStatus table; type facts",
+   technique="loop-structure and index-discipline rules on the walker's effect trees; exhaustive GameStatus table; type facts; path classification of the list printer with decoded format templates; compile-fail witness",
    text="Static: set_board_pos has a backward and a forward loop whose guards compare board_pos with the target (it can only exit with "
         "equality), unmake after decrement / make before increment on stack[board_pos]; next/prev update pos, synchronise the board to "
         "exactly the index of the move they return and hand out the walker's own board; the walker holds a shared slice and an owned "
         "board; GameStatus::from tabulated on all 23 inputs; list separator and from_uci_list structure. The shown positions then follow "
-        "from C03/C04; styled text and numbering are not decided.",
-   note=TB + "E0502 borrow witness runs in the thorough tier."),
+        "from C03/C04; the text of a styled move itself is C09's. ADDED: StyledList::fmt is classified path by path: only walker moves in the requested style, numbers ('N. '/'N... ' first, ' N.' before later White moves, value = board number - first + start) and the final status are printed, with format templates decoded from the compiled constants; a compile-fail witness shows the chain cannot be mutated while a walker borrows it.",
+   note=TB + "The E0502 borrow witness runs in the quick tier as well."),
  "C18": dict(cat="other", ref="DESIGN.md §3 C18",
-   technique="compile-time witnesses, table and tabulated-function mirror checks, dispatcher pairing, colour-branch inventory, index-function consistency lint",
+   technique="compile-time witnesses, table and tabulated-function mirror checks, dispatcher pairing, colour-branch inventory, index-function consistency lint; generator/validator comparison with a symmetric reference",
    text="Static, premises only: Black's geometry constants are mirrors of White's and anchored to the rules (CTFE witness); pawn attack "
         "tables are rank mirrors and all near tables file-symmetric; pawns::advance_* tabulated mirror-consistent; every colour dispatcher "
         "pairs colours with matching instances; every run-time colour branch in position logic is a checked pair or reviewed; DIAG/ANTIDIAG "
-        "are indexed by their own numbering function. The behavioural symmetry of move sets and outcomes is not decided.",
+        "are indexed by their own numbering function. Symmetry of outcomes is not decided beyond C07's rules. ADDED: generator and validator of both colour instances equal one reference that is symmetric under both mirrors (rules shared with C06), which decides the symmetry of semilegal move sets; outcomes and legal filtering are symmetric as far as C01/C07's rules go.",
    note=TB + "Reviewed list of 19 colour-branching functions in rules/symrules.py, one reason each."),
  "C20": dict(cat="other", ref="DESIGN.md §3 C20",
-   technique="compile-time witness crate (rustc const evaluation, exhaustive loops) + constant-folding tabulation of char tables, operators, Coord::shift",
+   technique="compile-time witness crate (rustc const evaluation, exhaustive loops) + constant-folding tabulation of char tables, operators, Coord::shift; abstract interpretation for totality; compile-fail witnesses",
    text="Static: everything const-evaluable is asserted exhaustively by rustc's own constant evaluator (index round trips, square/file/"
         "rank/flip/diagonal arithmetic, named constant sets on all 64 squares, cell/colour/castling-rights algebra, bitboard set operations "
         "on all one- and two-square sets); from_char accepts exactly the documented spellings on 0x300 code points and inverts as_char; "
         "operators are the u64 primitive; Coord::shift tabulated on 23,104 points. String-level round trips, deposit_bits and iteration "
-        "order are not decided (they need evaluation over 64-bit data).",
+        "order are not decided (they need evaluation over 64-bit data). ADDED: bitboard operations are total (abstract interpreter, 10 roots: no overflow/shift/bounds assertion reachable); checked constructors reject out-of-range indices already in const evaluation (compile-fail witnesses).",
    note=TB + "The witness crate is type-checked by stable cargo against /repo's chess_base."),
  "C12": dict(cat="other", ref="DESIGN.md §3 C12",
    technique="abstract interpretation of instantiated MIR (intervals, slice-length/ASCII/UTF-8 object facts, may-be-set bits, checked loop "
